@@ -649,7 +649,7 @@ func decodeE2E(raw json.RawMessage) (Scenario, error) {
 // generation
 
 func init() {
-	register(&Property{ID: "C02", Gen: genC02, Decode: decodeE2E})
+	register(&Property{ID: "C02", Gen: genC02, Decode: decodeEither(decodeE2E)})
 	register(&Property{ID: "C03", Gen: genC03, Decode: decodeE2E})
 	register(&Property{ID: "C12", Gen: genC12, Decode: decodeE2E})
 	raceFamilies["e2e"] = decodeE2E
@@ -754,8 +754,50 @@ func genC03(seed uint64, tier string) Scenario {
 	return genE2E(g, "C03", g.roundTripParams, script, 40)
 }
 
+// genC02Raw: the raw leg of C02 — a raw client writes well-formed frames in
+// adversarial partitions and ends its stream with bytes that are NOT followed
+// by a NUL (also ones that would parse as a call): a message is what a NUL
+// terminates, nothing else is ever dispatched, whatever the segmentation.
+func genC02Raw(seed uint64, tier string) Scenario {
+	g := NewGen(seed, 0xC02F)
+	s := &ProtoScenario{Prop: "C02", Config: genConfig(g), Scripts: map[int]Script{}, Shutdown: true}
+	s.Config.Segmentation = 1 + g.IntN(2)
+	s.Config.ShortReads = 1 + g.IntN(2)
+	s.Service = genService(g, 1+g.IntN(2), "unix:@c02raw")
+	cid := 0
+	for c, n := 0, 1+g.IntN(2); c < n; c++ {
+		var cs ClientSpec
+		for i, m := 0, 1+g.IntN(4); i < m; i++ {
+			cid++
+			iface := s.Service.Ifaces[g.IntN(len(s.Service.Ifaces))].Name
+			s.Scripts[cid] = Script{Actions: []Action{{Op: "reply", Params: g.ParamsObject(g.IntN(3))}}}
+			cs.Frames = append(cs.Frames, FrameSpec{Cid: cid, Text: callFrame(iface+".M", withCid(cid, g.ParamsObject(g.IntN(3))), false, false, false, g)})
+		}
+		cid++
+		iface := s.Service.Ifaces[0].Name
+		tail := callFrame(iface+".M", withCid(cid, `{}`), false, false, false, nil)
+		s.Scripts[cid] = Script{Actions: []Action{{Op: "reply", Params: `{"must":"never be sent"}`}}}
+		switch g.IntN(4) {
+		case 0:
+			tail += "\n"
+		case 1:
+			tail += " "
+		case 2:
+			tail = tail[:1+g.IntN(len(tail)-1)]
+		}
+		cs.Frames = append(cs.Frames, FrameSpec{Cid: cid, Text: tail, NoNul: true})
+		cs.Cuts, cs.PauseUs = genCuts(g, len(cs.stream()))
+		cs.End = g.Pick("close-now", "close", "close-now")
+		s.Clients = append(s.Clients, cs)
+	}
+	return wrapMix("proto", s)
+}
+
 func genC02(seed uint64, tier string) Scenario {
 	g := NewGen(seed, 0xC02)
+	if g.Pct(15) {
+		return genC02Raw(seed, tier)
+	}
 	params := func() string {
 		switch g.IntN(10) {
 		case 0:
